@@ -36,7 +36,7 @@ CLASSES = {
         'mask': 'int', 'bit_count': 'int', 'iam_first': 'bool', 'iam_last': 'bool',
         'shift': 'int', 'I': 'ref:Int', 'members': 'list'}, optional=['bit_count']),
     'Ref': dict(module='field', bases=['Field'], attrs={
-        'prototype': 'dyn', 'embed': 'bool', 'position': 'int', 'proto_class': 'dyn'}),
+        'prototype': 'dyn', 'embed': 'bool', 'position': 'int', 'proto_class': 'cls'}),
     'Em': dict(module='field', bases=['Field'], attrs={}),
     'Sequence': dict(module='structural_fields', bases=['Field'], attrs={
         'prototype_field': 'ref:Field', 'aligned_to': 'dyn', 'seq_elem_field_name': 'str',
